@@ -131,6 +131,8 @@ class AsmWorld(World):
         dim = 3 if (actor in ("mixed", "Thermal") and rng.random() < 0.2) else 2
         maxNn = (30 if tier == "quick" else 60) if dim == 2 else 40
         cands = [n for n in meshlib.names(dim=dim) if lib[n].Nn <= maxNn]
+        if dim == 2 and actor in ("mixed", "Thermal", "Elastic"):
+            cands = cands + ["mixed_a", "mixed_b"]  # two main-dimension groups (TRI3 + QUAD4) in one mesh
         n_mesh = int(rng.integers(1, 3))
         meshes = [cands[int(rng.integers(len(cands)))] for _ in range(n_mesh)]
         cfg = {"actor": actor, "dim": dim, "meshes": meshes, "nops": int(rng.integers(8, 26)), "faults": bool(faults)}
